@@ -400,7 +400,7 @@ func yield() *G {
 	cands := e.candidates(g)
 	idx := 0
 	if len(cands) > 1 {
-		if e.spent < e.opts.Bound || len(e.points) < len(e.prefix) {
+		if e.spent < e.opts.Bound {
 			idx = e.pick(len(cands), KSched)
 		}
 	}
@@ -460,7 +460,7 @@ func (e *Exec) leave() {
 	}
 	idx := 0
 	if len(cands) > 1 {
-		if e.spent < e.opts.Bound || len(e.points) < len(e.prefix) {
+		if e.spent < e.opts.Bound {
 			idx = e.pick(len(cands), KSched)
 		}
 	}
@@ -674,6 +674,8 @@ type Options struct {
 	MaxExecs  int // 0 = no cap
 	Deadline  time.Time
 	Trace     bool // record an operation trace in the outcome (replay only)
+	SplitK    int  // intra-scenario sharding: number of jobs the first-level subtrees are dealt to
+	SplitIdx  int
 }
 
 func run(prefix []int, opts *Options, cache *Cache, body func()) *Outcome {
